@@ -184,11 +184,13 @@ fn real_response(buf: &[u8], cfg: Cfg, cap: usize, entry: u8) -> RealResp {
     }
 }
 
+/// free text inside a JSON string: no double quotes, no backslashes (a Debug-formatted string carries both), no control characters
+fn jtxt(t: &str) -> String { let mut o = String::new(); for c in t.chars() { match c { '"' => o.push('\''), '\\' => o.push_str("\\\\"), c if (c as u32) < 0x20 => o.push(' '), c => o.push(c) } } o }
 struct Finding { stage: &'static str, gen: &'static str, family: &'static str, oracle: String, entry: String, cfg: u8, cap: usize, input: Vec<u8>, real: String, expected: String }
 impl Finding {
     fn json(&self) -> String {
         format!("{{\"stage\":\"{}\",\"gen\":\"{}\",\"family\":\"{}\",\"oracle\":\"{}\",\"entry\":\"{}\",\"cfg\":{},\"cap\":{},\"input_hex\":\"{}\",\"input\":\"{}\",\"real\":\"{}\",\"expected\":\"{}\"}}",
-            self.stage, self.gen, self.family, self.oracle, self.entry, self.cfg, self.cap, hex(&self.input), esc(&self.input), self.real.replace('"', "'"), self.expected.replace('"', "'"))
+            self.stage, self.gen, self.family, self.oracle, self.entry, self.cfg, self.cap, hex(&self.input), esc(&self.input), jtxt(&self.real), jtxt(&self.expected))
     }
 }
 /// set by the history checks just before they report: (earlier buffer, its config bits, 1 = *_with_uninit_headers entry points)
